@@ -10,6 +10,10 @@ about every state.
 
 Recorded defects of the code w.r.t. the property text (the model has them too; `…_partial` + `…_counterexample`):
 
+* module directory: a module file whose *import raises* (generated from late-breaking content: `<% break %>`,
+  `<%! import nonexistent %>`, …) and that is not older than the source now denoted by the URI is imported – and
+  raises – before `_compile_from_file` looks at the file name it was generated from: after the late-breaking file of
+  an earlier directory is deleted, the next directory's good file never loads (`first_directory_wins_counterexample`);
 * LRU collection: `put_string`/`put_template` entries are evicted like any other and are then gone
   (`put_entries_served_lru_counterexample`);
 * "eviction never changes what a lookup returns" is false where a warm lookup may differ from a cold one:
@@ -23,8 +27,14 @@ Recorded defects of the code w.r.t. the property text (the model has them too; `
 Repaired in /repo (b4d0d5f): a module file is no longer re-used for another source file – `_compile_from_file`
 compares `module._template_filename`; the model follows (`Generated.Lookup.moduleChecksSourceName`), the former
 `first_directory_wins_counterexample` / `fresh_counterexample` are gone and their witnesses are now regression
-theorems (`…_former_witness`).  What remains with a module directory is the property's own one-second allowance:
-a module file of the *same* source stamped in the very second of the source's mtime is re-used.
+theorems (`…_former_witness`).  What remains with a module directory, besides the defect above, is the property's
+own one-second allowance: a module file of the *same* source stamped in the very second of the source's mtime is
+re-used (or, if its import raises, raises again: `failed_import_same_second_witness`).
+
+Contents come in three kinds: good, `broken` (Mako's lexer/parser/codegen raise; nothing is written), `late` (Mako
+compiles, the generated module raises when imported; with a module directory the module file is written and stays).
+The order "decide staleness by mtime, then import" of `_compile_from_file` is a regenerated fact
+(`staleDecidedBeforeImport`, obligation `stale_decided_before_import`).
 -/
 namespace MakoModel.C14
 open MakoModel.Lookup MakoModel.Generated.Lookup
@@ -47,15 +57,16 @@ directory, or the module file of `u` is older than the source or was generated f
 `get_template(u)` compiles the *current* content of `f` now. -/
 theorem fresh_partial (cfg : Cfg) (hck : cfg.checks = true) (h : List Op) (u : Uri) (e : Entry) (f : FileRef)
     (file : File) (he : get? (final cfg h).coll u = some e) (hfile : e.val.file = some f)
-    (hfs : (final cfg h).fs f = some file) (hnb : file.broken = false)
+    (hfs : (final cfg h).fs f = some file) (hnb : file.broken = false) (hnl : file.late = false)
     (hlater : e.val.stamp + 1 ≤ file.mtime)
-    (hguard : cfg.moddir = true → ∀ m, (final cfg h).mods u = some m → m.time < file.mtime ∨ m.src ≠ f) :
+    (hguard : cfg.moddir = true → ∀ m, (final cfg h).mods u = some m →
+      m.time < file.mtime ∨ (m.late = false ∧ m.src ≠ f)) :
     ∃ t s', getTemplate cfg (final cfg h) u = (.ok t, s') ∧ t.content = file.content ∧ t.file = some f ∧
       t.stamp = (final cfg h).clock ∧ t.id = (final cfg h).nextId := by
   have hlt : e.val.stamp < file.mtime := by omega
   have hc := construct_regen (cfg := cfg)
     (s := { stampHit (final cfg h) u with coll := erase (stampHit (final cfg h) u).coll u }) (k := u) (f := f)
-    (file := file) hfs hnb hguard
+    (file := file) hfs hnb hnl hguard
   have hget := (get_hit_check he hck).trans (check_stale_ok hfile hfs hlt hc)
   exact ⟨_, _, hget, rfl, rfl, rfl, rfl⟩
 
@@ -63,7 +74,7 @@ example : ∃ t s', getTemplate ⟨1, true, none, false⟩
       (final ⟨1, true, none, false⟩ [.writeFile 0 0 1, .getTemplate 0, .tick 1, .writeFile 0 0 2]) 0 = (.ok t, s')
       ∧ t.content = 2 ∧ t.file = some (0, 0) ∧ t.stamp = 1 ∧ t.id = 1 :=
   fresh_partial ⟨1, true, none, false⟩ rfl [.writeFile 0 0 1, .getTemplate 0, .tick 1, .writeFile 0 0 2] 0
-    ⟨⟨0, 0, some (0, 0), 1, 0⟩, 0⟩ (0, 0) ⟨2, 1, false⟩ (by decide) rfl (by decide) rfl (by decide)
+    ⟨⟨0, 0, some (0, 0), 1, 0⟩, 0⟩ (0, 0) ⟨2, 1, false, false⟩ (by decide) rfl (by decide) rfl rfl (by decide)
     (by intro hh; cases hh)
 
 /-- **fresh.**  For every history without `put_template` the guard holds by itself (invariant `ModSync`: a cached
@@ -71,12 +82,12 @@ file-backed entry carries the stamp of its URI's module file), in every configur
 theorem fresh (cfg : Cfg) (hck : cfg.checks = true) (h : List Op) (hnp : ∀ op ∈ h, noPutTemplate op = true)
     (u : Uri) (e : Entry) (f : FileRef) (file : File) (he : get? (final cfg h).coll u = some e)
     (hfile : e.val.file = some f) (hfs : (final cfg h).fs f = some file) (hnb : file.broken = false)
-    (hlater : e.val.stamp + 1 ≤ file.mtime) :
+    (hnl : file.late = false) (hlater : e.val.stamp + 1 ≤ file.mtime) :
     ∃ t s', getTemplate cfg (final cfg h) u = (.ok t, s') ∧ t.content = file.content ∧ t.file = some f ∧
       t.stamp = (final cfg h).clock ∧ t.id = (final cfg h).nextId := by
-  apply fresh_partial cfg hck h u e f file he hfile hfs hnb hlater
+  apply fresh_partial cfg hck h u e f file he hfile hfs hnb hnl hlater
   intro hmd m hm
-  obtain ⟨m', hm', ht⟩ := modsync_final cfg h hnp hmd (u, e) (get?_some_mem he) (by simp [hfile])
+  obtain ⟨m', hm', ht, _⟩ := modsync_final cfg h hnp hmd (u, e) (get?_some_mem he) (by simp [hfile])
   simp only at hm' ht
   rw [hm] at hm'; injection hm' with hm'; subst hm'
   left; omega
@@ -85,21 +96,23 @@ example : ∃ t s', getTemplate ⟨1, true, some 2, true⟩
       (final ⟨1, true, some 2, true⟩ [.writeFile 0 0 1, .getTemplate 0, .tick 1, .writeFile 0 0 2]) 0 = (.ok t, s')
       ∧ t.content = 2 ∧ t.file = some (0, 0) ∧ t.stamp = 1 ∧ t.id = 1 :=
   fresh ⟨1, true, some 2, true⟩ rfl [.writeFile 0 0 1, .getTemplate 0, .tick 1, .writeFile 0 0 2]
-    (by decide) 0 ⟨⟨0, 0, some (0, 0), 1, 0⟩, 0⟩ (0, 0) ⟨2, 1, false⟩ (by decide) rfl (by decide) rfl (by decide)
+    (by decide) 0 ⟨⟨0, 0, some (0, 0), 1, 0⟩, 0⟩ (0, 0) ⟨2, 1, false, false⟩ (by decide) rfl (by decide) rfl rfl (by decide)
 
 /-- **fresh, every history** (also with `put_template` and a module directory).  Under the premises of `fresh` the
 template returned comes from file `f` and was compiled from its current content – or, with a module directory, is
 the module of this very source stamped in the second of the source's mtime (the one-second allowance of the
-property, applied to the module file). -/
+property, applied to the module file).  Guard: no module file whose import raises stands in the way (see
+`first_directory_wins_counterexample`). -/
 theorem fresh_any_history (cfg : Cfg) (hck : cfg.checks = true) (h : List Op) (u : Uri) (e : Entry) (f : FileRef)
     (file : File) (he : get? (final cfg h).coll u = some e) (hfile : e.val.file = some f)
-    (hfs : (final cfg h).fs f = some file) (hnb : file.broken = false)
-    (hlater : e.val.stamp + 1 ≤ file.mtime) :
+    (hfs : (final cfg h).fs f = some file) (hnb : file.broken = false) (hnl : file.late = false)
+    (hlater : e.val.stamp + 1 ≤ file.mtime)
+    (hlate : cfg.moddir = true → ∀ m, (final cfg h).mods u = some m → m.late = true → m.time < file.mtime) :
     ∃ t s', getTemplate cfg (final cfg h) u = (.ok t, s') ∧ t.file = some f ∧ t.id = (final cfg h).nextId ∧
       (t.content = file.content ∨ (cfg.moddir = true ∧ t.stamp = file.mtime)) := by
   have hlt : e.val.stamp < file.mtime := by omega
   obtain ⟨t, s', hc⟩ := construct_ok_of_compiles (cfg := cfg)
-    (s := { stampHit (final cfg h) u with coll := erase (stampHit (final cfg h) u).coll u }) (k := u) (f := f) hfs hnb
+    (s := { stampHit (final cfg h) u with coll := erase (stampHit (final cfg h) u).coll u }) (k := u) (f := f) hfs hnb hnl hlate
   have hm : ModCur { stampHit (final cfg h) u with coll := erase (stampHit (final cfg h) u).coll u } :=
     modcur_congr rfl rfl (modcur_final cfg h)
   obtain ⟨h1, h2, h3⟩ := construct_ok_current hm hfs hc
@@ -110,8 +123,8 @@ example : ∃ t s', getTemplate ⟨1, true, none, true⟩
       (final ⟨1, true, none, true⟩ [.writeFile 0 0 1, .getTemplate 0, .tick 1, .writeFile 0 0 3, .tick 1, .writeFile 0 1 4,
         .getTemplate 1, .putTemplate 1 0]) 1 = (.ok t, s') ∧ t.file = some (0, 0) ∧ t.id = 2 ∧
       (t.content = 3 ∨ ((true : Bool) = true ∧ t.stamp = 1)) :=
-  fresh_any_history ⟨1, true, none, true⟩ rfl _ 1 ⟨⟨0, 0, some (0, 0), 1, 0⟩, 1⟩ (0, 0) ⟨3, 1, false⟩
-    (by decide) rfl (by decide) rfl (by decide)
+  fresh_any_history ⟨1, true, none, true⟩ rfl _ 1 ⟨⟨0, 0, some (0, 0), 1, 0⟩, 1⟩ (0, 0) ⟨3, 1, false, false⟩
+    (by decide) rfl (by decide) rfl rfl (by decide) (by decide)
 
 /-- Regression (repaired by b4d0d5f): template 0 (compiled at 0 from file (0,0)) is put under URI 1, whose module
 file was written at second 2 from file (0,1); file (0,0) was modified at second 1.  `get_template(1)` used to
@@ -121,7 +134,7 @@ theorem fresh_former_witness :
     let s := final cfg [.writeFile 0 0 1, .getTemplate 0, .tick 1, .writeFile 0 0 3, .tick 1, .writeFile 0 1 4,
       .getTemplate 1, .putTemplate 1 0]
     (get? s.coll 1).map (fun e => (e.val.file, e.val.stamp)) = some (some (0, 0), 0) ∧
-      s.fs (0, 0) = some ⟨3, 1, false⟩ ∧ (step cfg s (.getTemplate 1)).1 = .ok 2 3 := by
+      s.fs (0, 0) = some ⟨3, 1, false, false⟩ ∧ (step cfg s (.getTemplate 1)).1 = .ok 2 3 := by
   decide
 
 /-- Why `fresh` excludes `put_template` and `fresh_any_history` has the second alternative: an *old* template
@@ -133,7 +146,7 @@ theorem fresh_same_second_put_template_witness :
     let s := final cfg [.writeFile 0 0 1, .getTemplate 0, .tick 1, .writeFile 0 0 2, .getTemplate 0, .writeFile 0 0 3,
       .putTemplate 0 0]
     (get? s.coll 0).map (fun e => (e.val.file, e.val.stamp)) = some (some (0, 0), 0) ∧
-      s.fs (0, 0) = some ⟨3, 1, false⟩ ∧ (step cfg s (.getTemplate 0)).1 = .ok 2 2 := by
+      s.fs (0, 0) = some ⟨3, 1, false, false⟩ ∧ (step cfg s (.getTemplate 0)).1 = .ok 2 2 := by
   decide
 
 /-! ## stability -/
@@ -186,20 +199,23 @@ example : (getTemplate ⟨1, false, none, false⟩
 
 /-! ## directory priority -/
 
-/-- **first_directory_wins** (every configuration).  `u` is not cached, `d` is the first configured directory that
-holds a file `u`, and it compiles.  Then `get_template(u)` constructs a template from directory `d`'s file, caches
-it, and its content is the file's current content – or, with a module directory, that of the module of this very
-file stamped in the second of the file's mtime (the one-second allowance). -/
-theorem first_directory_wins (cfg : Cfg) (hcap : cfg.cap ≠ some 0) (h : List Op) (u : Uri) (d : Dir)
+/-- **first_directory_wins (guarded).**  `u` is not cached, `d` is the first configured directory that holds a file
+`u`, and it compiles and imports.  If no module file whose import raises stands in the way (there is none for `u`
+that is not older than the file), `get_template(u)` constructs a template from directory `d`'s file, caches it, and
+its content is the file's current content – or, with a module directory, that of the module of this very file
+stamped in the second of the file's mtime (the one-second allowance). -/
+theorem first_directory_wins_partial (cfg : Cfg) (hcap : cfg.cap ≠ some 0) (h : List Op) (u : Uri) (d : Dir)
     (file : File) (hmiss : get? (final cfg h).coll u = none) (hd : d < cfg.ndirs)
     (hfile : (final cfg h).fs (d, u) = some file) (hfirst : ∀ j, j < d → (final cfg h).fs (j, u) = none)
-    (hnb : file.broken = false) :
+    (hnb : file.broken = false) (hnl : file.late = false)
+    (hlate : cfg.moddir = true → ∀ m, (final cfg h).mods u = some m → m.late = true → m.time < file.mtime) :
     ∃ t s', getTemplate cfg (final cfg h) u = (.ok t, s') ∧ t.file = some (d, u) ∧
       t.id = (final cfg h).nextId ∧ valAt s' u = some t ∧
       (t.content = file.content ∨ (cfg.moddir = true ∧ t.stamp = file.mtime)) := by
   have hfd : firstDir cfg.ndirs (final cfg h).fs u = some d :=
     firstDir_some_iff.mpr ⟨by simp [hfile], hd, hfirst⟩
   obtain ⟨t, s', hc⟩ := construct_ok_of_compiles (cfg := cfg) (s := final cfg h) (k := u) (f := (d, u)) hfile hnb
+    hnl hlate
   obtain ⟨h1, h2, h3⟩ := construct_ok_current (modcur_final cfg h) hfile hc
   have hl := load_ok hmiss hc
   have hget := (get_miss_load hmiss hfd).trans hl
@@ -210,31 +226,55 @@ example : ∃ t s', getTemplate ⟨2, true, none, true⟩
       (final ⟨2, true, none, true⟩ [.writeFile 1 0 1, .tick 1, .writeFile 0 0 2, .getTemplate 0, .tick 1, .deleteFile 0 0,
         .getTemplate 0]) 0 = (.ok t, s') ∧ t.file = some (1, 0) ∧ t.id = 1 ∧ valAt s' 0 = some t ∧
       (t.content = 1 ∨ ((true : Bool) = true ∧ t.stamp = 0)) :=
-  first_directory_wins ⟨2, true, none, true⟩ (by decide) _ 0 1 ⟨1, 0, false⟩ (by decide) (by decide) (by decide)
-    (by decide) rfl
+  first_directory_wins_partial ⟨2, true, none, true⟩ (by decide) _ 0 1 ⟨1, 0, false, false⟩ (by decide) (by decide)
+    (by decide) (by decide) rfl rfl (by decide)
+
+/-- With a module directory the unguarded statement is false: directory 0's file is late-breaking (Mako compiles
+it, the module raises at import); its module file is written at second 1.  The file is deleted.  Directory 1's good
+file (mtime 0) is now the first one – but `_compile_from_file` imports the leftover module file (not older than the
+source) before it looks at the file name it was generated from: the import error is raised, for good. -/
+theorem first_directory_wins_counterexample :
+    let cfg : Cfg := ⟨2, true, none, true⟩
+    let s := final cfg [.writeFile 1 0 3, .tick 1, .breakFileLate 0 0, .getTemplate 0, .deleteFile 0 0]
+    get? s.coll 0 = none ∧ s.fs (0, 0) = none ∧ s.fs (1, 0) = some ⟨3, 0, false, false⟩ ∧
+      (step cfg s (.getTemplate 0)).1 = .exc .late ∧
+      (step cfg { (step cfg s (.getTemplate 0)).2 with clock := s.clock + 100 } (.getTemplate 0)).1 = .exc .late := by
+  decide
 
 /-- **first_directory_wins, exact.**  If there is no module directory, or the module file of `u` is older than the
-file or was generated from another source file, the template is compiled now from the file's current content. -/
+file, or imports and was generated from another source file, the template is compiled now from the file's current
+content. -/
 theorem first_directory_wins_exact (cfg : Cfg) (hcap : cfg.cap ≠ some 0) (h : List Op) (u : Uri) (d : Dir)
     (file : File) (hmiss : get? (final cfg h).coll u = none) (hd : d < cfg.ndirs)
     (hfile : (final cfg h).fs (d, u) = some file) (hfirst : ∀ j, j < d → (final cfg h).fs (j, u) = none)
-    (hnb : file.broken = false)
-    (hguard : cfg.moddir = true → ∀ m, (final cfg h).mods u = some m → m.time < file.mtime ∨ m.src ≠ (d, u)) :
+    (hnb : file.broken = false) (hnl : file.late = false)
+    (hguard : cfg.moddir = true → ∀ m, (final cfg h).mods u = some m →
+      m.time < file.mtime ∨ (m.late = false ∧ m.src ≠ (d, u))) :
     ∃ t s', getTemplate cfg (final cfg h) u = (.ok t, s') ∧ t.file = some (d, u) ∧ t.content = file.content ∧
       t.stamp = (final cfg h).clock ∧ t.id = (final cfg h).nextId ∧ valAt s' u = some t := by
   have hfd : firstDir cfg.ndirs (final cfg h).fs u = some d :=
     firstDir_some_iff.mpr ⟨by simp [hfile], hd, hfirst⟩
-  have hc := construct_regen (cfg := cfg) (s := final cfg h) (k := u) (f := (d, u)) hfile hnb hguard
+  have hc := construct_regen (cfg := cfg) (s := final cfg h) (k := u) (f := (d, u)) hfile hnb hnl hguard
   have hl := load_ok hmiss hc
   have hget := (get_miss_load hmiss hfd).trans hl
   have hs := load_ok_served (inv_final cfg h) hcap hmiss hl
   exact ⟨_, _, hget, rfl, rfl, rfl, rfl, hs.1.1⟩
 
+/-- **first_directory_wins.**  Without a module directory: the full statement. -/
+theorem first_directory_wins (cfg : Cfg) (hmd : cfg.moddir = false) (hcap : cfg.cap ≠ some 0) (h : List Op) (u : Uri)
+    (d : Dir) (file : File) (hmiss : get? (final cfg h).coll u = none) (hd : d < cfg.ndirs)
+    (hfile : (final cfg h).fs (d, u) = some file) (hfirst : ∀ j, j < d → (final cfg h).fs (j, u) = none)
+    (hnb : file.broken = false) (hnl : file.late = false) :
+    ∃ t s', getTemplate cfg (final cfg h) u = (.ok t, s') ∧ t.file = some (d, u) ∧ t.content = file.content ∧
+      t.stamp = (final cfg h).clock ∧ t.id = (final cfg h).nextId ∧ valAt s' u = some t :=
+  first_directory_wins_exact cfg hcap h u d file hmiss hd hfile hfirst hnb hnl
+    (by intro hh; rw [hmd] at hh; cases hh)
+
 example : ∃ t s', getTemplate ⟨3, true, some 1, false⟩
       (final ⟨3, true, some 1, false⟩ [.writeFile 2 0 7, .writeFile 1 0 8, .tick 2]) 0 = (.ok t, s') ∧
       t.file = some (1, 0) ∧ t.content = 8 ∧ t.stamp = 2 ∧ t.id = 0 ∧ valAt s' 0 = some t :=
-  first_directory_wins_exact ⟨3, true, some 1, false⟩ (by decide) [.writeFile 2 0 7, .writeFile 1 0 8, .tick 2] 0 1
-    ⟨8, 0, false⟩ (by decide) (by decide) (by decide) (by decide) rfl (by intro hh; cases hh)
+  first_directory_wins ⟨3, true, some 1, false⟩ rfl (by decide) [.writeFile 2 0 7, .writeFile 1 0 8, .tick 2] 0 1
+    ⟨8, 0, false, false⟩ (by decide) (by decide) (by decide) (by decide) rfl rfl
 
 /-- Regression (repaired by b4d0d5f): the file in directory 0 (content 2) is loaded and deleted; the uncached URI
 is then served from directory 1's file (content 1, unchanged since second 0).  It used to come with the module
@@ -243,7 +283,7 @@ theorem first_directory_wins_former_witness :
     let cfg : Cfg := ⟨2, true, none, true⟩
     let s := final cfg [.writeFile 1 0 1, .tick 1, .writeFile 0 0 2, .getTemplate 0, .tick 1, .deleteFile 0 0,
       .getTemplate 0]
-    get? s.coll 0 = none ∧ s.fs (0, 0) = none ∧ s.fs (1, 0) = some ⟨1, 0, false⟩ ∧
+    get? s.coll 0 = none ∧ s.fs (0, 0) = none ∧ s.fs (1, 0) = some ⟨1, 0, false, false⟩ ∧
       (step cfg s (.getTemplate 0)).1 = .ok 1 1 := by
   decide
 
@@ -366,10 +406,10 @@ theorem failed_compile_leaves_lookup_usable (cfg : Cfg) (h : List Op) (u : Uri) 
     have := inv_getTemplate hi u; rw [hfail] at this; exact this
   refine ⟨f, file, hff, hfb, hn, hi1, ?_⟩
   intro n d c hd hfirst hwhich
-  let s2 : State := { s1 with clock := s1.clock + n, fs := setFs s1.fs (d, u) (some ⟨c, s1.clock + n, false⟩) }
+  let s2 : State := { s1 with clock := s1.clock + n, fs := setFs s1.fs (d, u) (some ⟨c, s1.clock + n, false, false⟩) }
   have hrun : (run cfg s1 [.tick n, .writeFile d u c]).2 = s2 := rfl
   rw [hrun]
-  have hfile : s2.fs (d, u) = some ⟨c, s1.clock + n, false⟩ := by simp [s2, setFs]
+  have hfile : s2.fs (d, u) = some ⟨c, s1.clock + n, false, false⟩ := by simp [s2, setFs]
   have hfd : firstDir cfg.ndirs s2.fs u = some d := by
     apply firstDir_some_iff.mpr
     refine ⟨by simp [hfile], hd, ?_⟩
@@ -379,7 +419,7 @@ theorem failed_compile_leaves_lookup_usable (cfg : Cfg) (h : List Op) (u : Uri) 
       have hjd : j = d := congrArg Prod.fst hh
       rw [hjd] at hj; exact Nat.lt_irrefl _ hj
     simp [s2, setFs, this, hfirst j hj]
-  have hguard : needsRegen cfg s2 u (d, u) ⟨c, s1.clock + n, false⟩ := by
+  have hguard : needsRegen cfg s2 u (d, u) ⟨c, s1.clock + n, false, false⟩ := by
     intro hmd m hm
     have hm0 : (final cfg h).mods u = some m := by rw [← hmods]; exact hm
     have hle := hi.mod_le u m hm0
@@ -387,10 +427,10 @@ theorem failed_compile_leaves_lookup_usable (cfg : Cfg) (h : List Op) (u : Uri) 
     rcases hwhich with hw | hw | hw
     · rcases hmod hmd m hm0 with h4 | h4
       · rw [← hclk] at h4; left; simp only; omega
-      · right; rw [hw]; exact h4
+      · right; exact ⟨h4.1, hw ▸ h4.2⟩
     · left; simp only; omega
     · rw [hw] at hmd; cases hmd
-  have hc := construct_regen (cfg := cfg) (s := s2) (k := u) (f := (d, u)) hfile rfl hguard
+  have hc := construct_regen (cfg := cfg) (s := s2) (k := u) (f := (d, u)) hfile rfl rfl hguard
   have hget := (get_miss_load (s := s2) hn hfd).trans (load_ok (s := s2) hn hc)
   exact ⟨_, _, hget, rfl, rfl⟩
 
@@ -402,6 +442,65 @@ example : ∃ t s3, getTemplate ⟨1, true, none, true⟩
   obtain ⟨f, file, _, _, _, _, hkey⟩ := failed_compile_leaves_lookup_usable ⟨1, true, none, true⟩
     [.writeFile 0 0 1, .getTemplate 0, .tick 1, .breakFile 0 0] 0 _ rfl
   exact hkey 1 0 2 (by decide) (by intro j hj; exact absurd hj (Nat.not_lt_zero _)) (Or.inr (Or.inl (Nat.le_refl 1)))
+
+/-- **failed_compile_leaves_lookup_usable, failures at import.**  If `get_template(u)` raises what the import /
+execution of the generated module raises (the source compiles in Mako; with a module directory its module file has
+been written and stays), then afterwards there is no entry for `u`, the invariant holds, and once the first
+directory's file for `u` is (re)written with good content at least one second later (or at once, without module
+directory), `get_template(u)` succeeds with that content: the leftover module file is older than the source and is
+overwritten *without being imported* (`stale_decided_before_import`). -/
+theorem failed_import_leaves_lookup_usable (cfg : Cfg) (h : List Op) (u : Uri) (s1 : State)
+    (hfail : getTemplate cfg (final cfg h) u = (.error .late, s1)) :
+    get? s1.coll u = none ∧ Inv cfg s1 ∧
+    ∀ (n : Nat) (d : Dir) (c : Content), d < cfg.ndirs → (∀ j, j < d → s1.fs (j, u) = none) →
+      (1 ≤ n ∨ cfg.moddir = false) →
+      ∃ t s3, getTemplate cfg (run cfg s1 [.tick n, .writeFile d u c]).2 u = (.ok t, s3) ∧
+        t.content = c ∧ t.file = some (d, u) := by
+  have hi := inv_final cfg h
+  have hn := get_error_noentry hfail (by intro hh; cases hh)
+  have hi1 : Inv cfg s1 := by
+    have := inv_getTemplate hi u; rw [hfail] at this; exact this
+  refine ⟨hn, hi1, ?_⟩
+  intro n d c hd hfirst hwhich
+  let s2 : State := { s1 with clock := s1.clock + n, fs := setFs s1.fs (d, u) (some ⟨c, s1.clock + n, false, false⟩) }
+  have hrun : (run cfg s1 [.tick n, .writeFile d u c]).2 = s2 := rfl
+  rw [hrun]
+  have hfile : s2.fs (d, u) = some ⟨c, s1.clock + n, false, false⟩ := by simp [s2, setFs]
+  have hfd : firstDir cfg.ndirs s2.fs u = some d := by
+    apply firstDir_some_iff.mpr
+    refine ⟨by simp [hfile], hd, ?_⟩
+    intro j hj
+    have : (j, u) ≠ (d, u) := by
+      intro hh
+      have hjd : j = d := congrArg Prod.fst hh
+      rw [hjd] at hj; exact Nat.lt_irrefl _ hj
+    simp [s2, setFs, this, hfirst j hj]
+  have hguard : needsRegen cfg s2 u (d, u) ⟨c, s1.clock + n, false, false⟩ := by
+    intro hmd m hm
+    have hle := hi1.mod_le u m hm
+    rcases hwhich with hw | hw
+    · left; simp only; omega
+    · rw [hw] at hmd; cases hmd
+  have hc := construct_regen (cfg := cfg) (s := s2) (k := u) (f := (d, u)) hfile rfl rfl hguard
+  have hget := (get_miss_load (s := s2) hn hfd).trans (load_ok (s := s2) hn hc)
+  exact ⟨_, _, hget, rfl, rfl⟩
+
+example : ∃ t s3, getTemplate ⟨1, true, none, true⟩
+      (run ⟨1, true, none, true⟩
+        (getTemplate ⟨1, true, none, true⟩ (final ⟨1, true, none, true⟩ [.breakFileLate 0 0]) 0).2
+        [.tick 1, .writeFile 0 0 2]).2 0 = (.ok t, s3) ∧ t.content = 2 ∧ t.file = some (0, 0) :=
+  (failed_import_leaves_lookup_usable ⟨1, true, none, true⟩ [.breakFileLate 0 0] 0 _ rfl).2.2 1 0 2 (by decide)
+    (by intro j hj; exact absurd hj (Nat.not_lt_zero _)) (Or.inl (Nat.le_refl 1))
+
+/-- Why a tick is required with a module directory: corrected in the very second in which the late-breaking module
+file was written, the source is not newer than that module file, which is imported again and raises (the
+one-second allowance, applied to the module file); after a tick the corrected file loads. -/
+theorem failed_import_same_second_witness :
+    outputs ⟨1, true, none, true⟩ [.breakFileLate 0 0, .getTemplate 0, .writeFile 0 0 2, .getTemplate 0, .tick 1,
+      .writeFile 0 0 3, .getTemplate 0] = [.none, .exc .late, .none, .exc .late, .none, .none, .ok 2 3] ∧
+    outputs ⟨1, true, none, false⟩ [.breakFileLate 0 0, .getTemplate 0, .writeFile 0 0 2, .getTemplate 0]
+      = [.none, .exc .late, .none, .ok 1 2] := by
+  decide
 
 /-! ## the LRU collection -/
 
